@@ -435,15 +435,24 @@ class Interp:
         self.float_unary(op, fn)
 
     def op_SQUARED_DIFFERENCE(self, op):
+        """integer reference kernel (int8): operands shifted left by 7, rescaled to twice the larger input scale, difference squared,
+        rescaled to the output"""
         a_i, b_i, y_i = op.inputs[0], op.inputs[1], op.outputs[0]
+        if self.m.tensors[a_i].type != "INT8":
+            raise Unsupported("squared difference " + self.m.tensors[a_i].type)
         as_, azp = self.scalar_q(a_i)
         bs, bzp = self.scalar_q(b_i)
         ys, yzp = self.scalar_q(y_i)
-        d = (self.get(a_i) - azp).astype(np.float64) * as_ - (self.get(b_i) - bzp).astype(np.float64) * bs
-        real = d * d
-        y = np.floor(real / ys + 0.5) + yzp
-        # integer reference: both operands rescaled with a left shift of 7 and rounded before the squaring: a few steps of error
-        self.put(y_i, y.astype(np.int64), 2, [a_i, b_i])
+        left = 7
+        twice_max = 2.0 * max(float(as_), float(bs))
+        m1, s1 = quantize_multiplier(float(as_) / twice_max)
+        m2, s2 = quantize_multiplier(float(bs) / twice_max)
+        mo, so = quantize_multiplier((twice_max * twice_max) / ((1 << (left * 2)) * float(ys)))
+        x1 = mbqm((self.get(a_i) - azp) * (1 << left), m1, s1)
+        x2 = mbqm((self.get(b_i) - bzp) * (1 << left), m2, s2)
+        d = x1 - x2
+        y = mbqm(d * d, mo, so) + yzp
+        self.put(y_i, y, 0, [a_i, b_i])
 
     def op_ARG_MAX(self, op):
         x = self.get(op.inputs[0])
